@@ -605,24 +605,26 @@ def rule_flip_cover(repo):
     ok = {'schedule_intra_cycle', 'schedule_ff', 'schedule_posedge_flip'} <= set(order)
     (r.ok if ok else r.bad)(m, 'SimpleSchedulePass.__call__', ', '.join(order),
                             *([] if ok else ["the pass must build the comb schedule, the ff schedule and the flip schedule", sc.lineno]))
-    dm = repo.mod('pymtl3/passes/sim/DynamicSchedulePass.py')
-    dc = dm.get_class('DynamicSchedulePass')
-    dcall = repo.lookup_method(dm, dc, '__call__')
-    for meth in ('schedule_ff', 'schedule_posedge_flip'):
-        hit = repo.lookup_method(dm, dc, meth)
-        okk = hit is not None and hit[0].rel == SIMPLE and any(
-            isinstance(n, ast.Call) and norm(n.func) == f'self.{meth}' for n in ast.walk(dcall[2]))
-        if not okk:
-            # or: called on a SimpleSchedulePass instance created in __call__
-            inst = {norm(s.targets[0]) for s in ast.walk(dcall[2]) if isinstance(s, ast.Assign) and isinstance(s.value, ast.Call)
-                    and norm(s.value.func) == 'SimpleSchedulePass'}
-            okk = any(isinstance(n, ast.Call) and isinstance(n.func, ast.Attribute) and n.func.attr == meth and
-                      norm(n.func.value) in inst and [norm(a) for a in n.args] == ['top'] and
-                      not [g for g in guards_of(n) if g.kind in ('if', 'loop', 'except')]
-                      for n in ast.walk(dcall[2]))
-        (r.ok if okk else r.bad)(dm, 'DynamicSchedulePass.__call__', f"{meth} of SimpleSchedulePass is applied",
-                                 *([] if okk else [f"DynamicSchedulePass does not build {meth} with SimpleSchedulePass", dc.lineno]))
-    r.require_floor(8)
+    for drel, dname in (('pymtl3/passes/sim/DynamicSchedulePass.py', 'DynamicSchedulePass'),
+                        ('pymtl3/passes/mamba/HeuristicTopoPass.py', 'HeuristicTopoPass')):
+      dm = repo.mod(drel)
+      dc = dm.get_class(dname)
+      dcall = repo.lookup_method(dm, dc, '__call__')
+      for meth in ('schedule_ff', 'schedule_posedge_flip'):
+          hit = repo.lookup_method(dm, dc, meth)
+          okk = hit is not None and hit[0].rel == SIMPLE and any(
+              isinstance(n, ast.Call) and norm(n.func) == f'self.{meth}' for n in ast.walk(dcall[2]))
+          if not okk:
+              # or: called on a SimpleSchedulePass instance created in __call__
+              inst = {norm(s.targets[0]) for s in ast.walk(dcall[2]) if isinstance(s, ast.Assign) and isinstance(s.value, ast.Call)
+                      and norm(s.value.func) == 'SimpleSchedulePass'}
+              okk = any(isinstance(n, ast.Call) and isinstance(n.func, ast.Attribute) and n.func.attr == meth and
+                        norm(n.func.value) in inst and [norm(a) for a in n.args] == ['top'] and
+                        not [g for g in guards_of(n) if g.kind in ('if', 'loop', 'except')]
+                        for n in ast.walk(dcall[2]))
+          (r.ok if okk else r.bad)(dm, f'{dname}.__call__', f"{meth} of SimpleSchedulePass is applied",
+                                   *([] if okk else [f"{dname} does not build {meth} with SimpleSchedulePass", dc.lineno]))
+    r.require_floor(10)
     return r
 
 
